@@ -181,3 +181,4 @@ for e in select("thorough", "leaf", "univ") + select("thorough", "constructed"):
 demote(OBLIGATIONS, ['seq_optc', 'set_chx', 'seq_hitags.E', 'seq_wide', 'seq_optnull', 'seqof_choice_cons', 'choice_cons'])
 # quick tier: one representative per tag-stack family; the full product of bases x stacks runs in the thorough tier
 demote(OBLIGATIONS, ['bool.I', 'bool.EI', 'bool.EE', 'null.I', 'null.E', 'null.EI', 'null.EE', 'oid.I', 'oid.EI', 'oid.EE', 'bits.EI', 'bits.EE', 'utf8.I', 'utf8.EI', 'utf8.EE', 'int.EI', 'octs.EI', 'octs.EE', 'seq.EE', 'set.I', 'set.EE', 'seqof_int.I', 'seqof_int.EE', 'setof_octs.I', 'setof_octs.E', 'setof_octs.EE', 'int.IE', 'octs.IE', 'seqof_seq'], prefixes=('tail',))
+demote(OBLIGATIONS, ['set_optc', 'seq_defl', 'seq_any_def', 'seq_2ch', 'seqof_octs.E'])
